@@ -13,6 +13,7 @@ import (
 	"hash/fnv"
 	"encoding/json"
 	"fmt"
+	"go/ast"
 	"go/format"
 	goparser "go/parser"
 	"go/printer"
@@ -42,16 +43,24 @@ var logger = slog.New(slog.NewTextHandler(io.Discard, nil))
 //
 // Rewriting imports runs golang.org/x/tools/imports over generated code (milliseconds per call), so one source
 // in eight (by hash: the same source is always formatted the same way) takes that path.
-func realFormat(src string) (string, error) {
+func realFormat(src string) (string, error) { return realFormatMode(src, viaImports(src)) }
+
+// realFormatMode formats with (via) or without a file name; a second run on the output uses the mode of the first.
+func realFormatMode(src string, via bool) (string, error) {
 	var out bytes.Buffer
 	args := fmtcmd.Arguments{}
-	h := fnv.New32a()
-	h.Write([]byte(src))
-	if h.Sum32()%importsEvery == 0 {
+	if via {
 		args.StdinFilepath = "/nonexistent-verif/p/p.templ"
 	}
 	err := fmtcmd.Run(logger, strings.NewReader(src), &out, args)
 	return out.String(), err
+}
+
+// viaImports: this source is formatted with a file name.
+func viaImports(src string) bool {
+	h := fnv.New32a()
+	h.Write([]byte(src))
+	return h.Sum32()%importsEvery == 0
 }
 
 var errPos = regexp.MustCompile(`(templ\.Error\{Err: templ_7745c5c3_Err, FileName: [^\n]*?, Line: )\d+(, Col: )\d+\}`)
@@ -59,30 +68,88 @@ var errPos = regexp.MustCompile(`(templ\.Error\{Err: templ_7745c5c3_Err, FileNam
 // program returns the generated Go program for a source, normalised as C08 allows: positions embedded
 // in error values masked, gofmt layout.
 func program(src string) (string, error) {
+	p, _, err := programAndImports(src)
+	return p, err
+}
+
+// importSpec is one import of the generated program: local name and path.
+type importSpec struct{ name, path string }
+
+// programAndImports returns the generated program WITHOUT its import declarations, and the imports separately:
+// `templ fmt` with a file name rewrites the import block on purpose (drops unused imports, adds missing ones,
+// regroups), so the imports are compared by what they have to provide, not textually (importsAgree).
+func programAndImports(src string) (string, []importSpec, error) {
 	tf, err := parser.ParseString(src)
 	if err != nil {
-		return "", fmt.Errorf("parse: %w", err)
+		return "", nil, fmt.Errorf("parse: %w", err)
 	}
 	var b bytes.Buffer
 	if _, err = generator.Generate(tf, &b, generator.WithFileName("p.templ"), generator.WithSkipCodeGeneratedComment()); err != nil {
-		return "", fmt.Errorf("generate: %w", err)
+		return "", nil, fmt.Errorf("generate: %w", err)
 	}
 	masked := errPos.ReplaceAll(b.Bytes(), []byte("${1}0${2}0}"))
 	if _, err := format.Source(masked); err != nil {
-		return "", fmt.Errorf("gofmt: %w", err)
+		return "", nil, fmt.Errorf("gofmt: %w", err)
 	}
 	// "gofmt-level layout of the embedded Go code" is not part of the program: compare the syntax tree printed
 	// without comments (blank lines and comment placement are layout; every literal and statement stays exact)
 	fset := token.NewFileSet()
 	file, err := goparser.ParseFile(fset, "p_templ.go", masked, 0)
 	if err != nil {
-		return "", fmt.Errorf("go/parser: %w", err)
+		return "", nil, fmt.Errorf("go/parser: %w", err)
 	}
+	var imps []importSpec
+	for _, im := range file.Imports {
+		path := strings.Trim(im.Path.Value, "\"`")
+		name := path[strings.LastIndex(path, "/")+1:]
+		if im.Name != nil {
+			name = im.Name.Name
+		}
+		imps = append(imps, importSpec{name, path})
+	}
+	var decls []ast.Decl
+	for _, d := range file.Decls {
+		if g, ok := d.(*ast.GenDecl); ok && g.Tok == token.IMPORT {
+			continue
+		}
+		decls = append(decls, d)
+	}
+	file.Decls = decls
 	var out bytes.Buffer
 	if err := (&printer.Config{Mode: printer.UseSpaces | printer.TabIndent, Tabwidth: 8}).Fprint(&out, token.NewFileSet(), file); err != nil {
-		return "", fmt.Errorf("go/printer: %w", err)
+		return "", nil, fmt.Errorf("go/printer: %w", err)
 	}
-	return out.String(), nil
+	return out.String(), imps, nil
+}
+
+// importsAgree: formatting may regroup imports and drop unused ones, but an import the program uses must stay
+// (same local name, same path) and an import that formatting adds must be used. prog is the program without imports.
+func importsAgree(before, after []importSpec, prog string) string {
+	has := func(l []importSpec, x importSpec) bool {
+		for _, y := range l {
+			if x == y {
+				return true
+			}
+		}
+		return false
+	}
+	used := func(x importSpec) bool {
+		if x.name == "_" || x.name == "." {
+			return true
+		}
+		return regexp.MustCompile(`\b` + regexp.QuoteMeta(x.name) + `\.`).MatchString(prog)
+	}
+	for _, x := range before {
+		if !has(after, x) && used(x) {
+			return fmt.Sprintf("formatting removed the import %s %q, which the program uses", x.name, x.path)
+		}
+	}
+	for _, x := range after {
+		if !has(before, x) && !used(x) {
+			return fmt.Sprintf("formatting added the import %s %q, which the program does not use", x.name, x.path)
+		}
+	}
+	return ""
 }
 
 type report struct {
@@ -112,21 +179,28 @@ func firstDiff(a, b string) string {
 
 // checkSource applies the C08 and C09 oracles to one accepted source text.
 func checkSource(src string) (accepted bool, outs []outcome, prog string) {
-	p1, err := program(src)
+	return checkSourceMode(src, viaImports(src))
+}
+
+// checkSourceMode: via = format with a file name (import rewriting), for both runs.
+func checkSourceMode(src string, via bool) (accepted bool, outs []outcome, prog string) {
+	p1, imps1, err := programAndImports(src)
 	if err != nil {
 		return false, []outcome{{kind: "rejected", detail: err.Error()}}, ""
 	}
-	f1, err := realFormat(src)
+	f1, err := realFormatMode(src, via)
 	if err != nil {
 		return true, []outcome{{kind: "c08-rejected", detail: "formatter failed on an accepted file: " + err.Error()}}, p1
 	}
-	p2, err := program(f1)
+	p2, imps2, err := programAndImports(f1)
 	if err != nil {
 		outs = append(outs, outcome{kind: "c08-rejected", detail: "formatted file is not accepted: " + err.Error(), fmted: f1})
 	} else if p1 != p2 {
 		outs = append(outs, outcome{kind: "c08-changed", detail: "generated program differs: " + firstDiff(p1, p2), fmted: f1})
+	} else if d := importsAgree(imps1, imps2, p1); d != "" {
+		outs = append(outs, outcome{kind: "c08-changed", detail: d, fmted: f1})
 	}
-	f2, err := realFormat(f1)
+	f2, err := realFormatMode(f1, via)
 	if err != nil {
 		if len(outs) == 0 { // otherwise already reported as not accepted
 			outs = append(outs, outcome{kind: "c09", detail: "formatter failed on its own output: " + err.Error(), fmted: f1})
@@ -350,15 +424,37 @@ func src(prog []templang.Node, v templang.Variant) string {
 	return templang.HeaderV("p", v) + templang.Template("P", prog, v)
 }
 
-// failsWith re-runs the oracle on a rewritten program and reports whether the same kind of failure remains.
-func failsWith(p2 []templang.Node, v templang.Variant, kind string) bool {
-	_, outs, _ := checkSource(src(p2, v))
+// During attribution the failure kind carries the formatting mode of the failing case ("c09@via": formatted with a
+// file name), so that every re-run of the oracle on a rewritten program uses the mode of the original failure
+// (the mode is otherwise chosen by a hash of the source, which every rewrite changes).
+func modeKind(kind string, via bool) string {
+	if via {
+		return kind + "@via"
+	}
+	return kind + "@plain"
+}
+
+func splitKind(kind string) (base string, via bool) {
+	if i := strings.IndexByte(kind, '@'); i >= 0 {
+		return kind[:i], kind[i:] == "@via"
+	}
+	return kind, false
+}
+
+func failsSrc(s string, kind string) bool {
+	base, via := splitKind(kind)
+	_, outs, _ := checkSourceMode(s, via)
 	for _, o := range outs {
-		if o.kind == kind {
+		if o.kind == base {
 			return true
 		}
 	}
 	return false
+}
+
+// failsWith re-runs the oracle on a rewritten program and reports whether the same kind of failure remains.
+func failsWith(p2 []templang.Node, v templang.Variant, kind string) bool {
+	return failsSrc(src(p2, v), kind)
 }
 
 // callsEndTheirLine rewrites every component call so that a line break follows it.
@@ -386,14 +482,21 @@ func srcOdd(prog []templang.Node, odd int) string {
 	return templang.HeaderV("p", 3) + templang.TemplateOdd("P", prog, 3, odd)
 }
 
-func failsSrc(s string, kind string) bool {
-	_, outs, _ := checkSource(s)
-	for _, o := range outs {
-		if o.kind == kind {
-			return true
-		}
+// fileLevel names failures that concern the file's import block rather than the template (no ablation of the
+// template's nodes can explain those).
+func fileLevel(o outcome, sig string) string {
+	if !strings.HasPrefix(sig, "Format.") {
+		return sig
 	}
-	return false
+	switch {
+	case strings.HasPrefix(o.detail, "formatting removed the import"):
+		return "Imports.UsedImportRemoved"
+	case strings.HasPrefix(o.detail, "formatting added the import"):
+		return "Imports.UnusedImportAdded"
+	case strings.Contains(o.detail, "\"import"):
+		return "Imports.BlockChanged"
+	}
+	return sig
 }
 
 func attribute(prog []templang.Node, v templang.Variant, kind string) string {
@@ -448,7 +551,7 @@ func attribute(prog []templang.Node, v templang.Variant, kind string) string {
 
 // attributeRest attributes a failure to one of the root causes that do not involve what follows a component call.
 func attributeRest(prog []templang.Node, v templang.Variant, kind string) string {
-	if kind == "c08-changed" {
+	if base, _ := splitKind(kind); base == "c08-changed" {
 		b1, _ := json.Marshal(prog)
 		// Known root cause: writeNodes forces a line break (before block-level nodes and elements whose
 		// children are indented, after br/hr) even where the source has no whitespace between the two
@@ -479,18 +582,12 @@ func attributeRest(prog []templang.Node, v templang.Variant, kind string) string
 		if bytes.Equal(b1, b2) {
 			continue
 		}
-		_, outs, _ := checkSource(src(p2, v))
-		still := false
-		for _, o := range outs {
-			if o.kind == kind {
-				still = true
-			}
-		}
-		if !still {
+		if !failsWith(p2, v, kind) {
 			return ab.name
 		}
 	}
-	return "Format." + kind + ":" + strings.Join(kinds(prog), ",")
+	base, _ := splitKind(kind)
+	return "Format." + base + ":" + strings.Join(kinds(prog), ",")
 }
 
 func main() {
@@ -552,10 +649,10 @@ func progs(path string) {
 						switch o.kind {
 						case "c08-rejected", "c08-changed":
 							r.c08++
-							vhlib.Emit(map[string]any{"kind": "fail", "prop": "C08", "sig": attribute(p.Prog, v, o.kind), "what": "formatting changed the template's meaning: " + o.kind, "case": rep})
+							vhlib.Emit(map[string]any{"kind": "fail", "prop": "C08", "sig": fileLevel(o, attribute(p.Prog, v, modeKind(o.kind, viaImports(s)))), "what": "formatting changed the template's meaning: " + o.kind, "case": rep})
 						case "c09":
 							r.c09++
-							vhlib.Emit(map[string]any{"kind": "fail", "prop": "C09", "sig": attribute(p.Prog, v, o.kind), "what": "formatting is not idempotent", "case": rep})
+							vhlib.Emit(map[string]any{"kind": "fail", "prop": "C09", "sig": fileLevel(o, attribute(p.Prog, v, modeKind(o.kind, viaImports(s)))), "what": "formatting is not idempotent", "case": rep})
 						}
 					}
 					if i%1501 == 0 && v == 0 {
@@ -654,8 +751,8 @@ func layout(path string) {
 					if v == 2 {
 						pred = rec.FmtL
 					}
-					want := templang.FormattedHeaderV("p", v) + templang.FormatPrint(pred, v)
 					s := src(rec.Prog, v)
+					want := templang.FormattedHeaderV("p", v, viaImports(s)) + templang.FormatPrint(pred, v)
 					got, err := realFormat(s)
 					r.n++
 					if err == nil && got == want {
